@@ -37,9 +37,12 @@ LogInUniverse == /\ \A i \in 1..Len(E.hosts) : E.hosts[i].ip \in IPS /\ E.hosts[
 LApi == {[mac |-> E.api[i].mac, ip |-> E.api[i].ip, online |-> E.api[i].on] : i \in 1..Len(E.api)}
 
 \* ---- binding of the logged post-state
-PostSeq == /\ hosts' = LHosts(E.hosts) /\ macs' = LMacs(E.macs) /\ notes' = LNotes(E.notes)
+\* "nd" on a line: the caller does not read Session.C in this behaviour (Notify and C are optional);
+\* the notifications are then not observable and not compared
+NoDrain == "nd" \in DOMAIN E
+PostSeq == /\ hosts' = LHosts(E.hosts) /\ macs' = LMacs(E.macs) /\ (NoDrain \/ notes' = LNotes(E.notes))
 PostSet == /\ hosts' = LHosts(E.hosts) /\ macs' = LMacs(E.macs)
-           /\ notes' = Range(LNotes(E.notes)) /\ Cardinality(notes') = Len(E.notes)
+           /\ (NoDrain \/ (notes' = Range(LNotes(E.notes)) /\ Cardinality(notes') = Len(E.notes)))
 Adopt(isSet) == /\ hosts' = LHosts(E.hosts) /\ macs' = LMacs(E.macs)
                 /\ notes' = IF isSet THEN Range(LNotes(E.notes)) ELSE LNotes(E.notes)
                 /\ frame' = Nil
@@ -126,7 +129,7 @@ T_C05 == /\ \A i \in 1..Len(LE.hosts) : LE.hosts[i].ip \in IPS /\ LE.hosts[i].ma
          /\ \A i, j \in 1..Len(LE.macs) : i # j => LE.macs[i].mac # LE.macs[j].mac   \* unique per address
          /\ \A i \in 1..Len(LE.macs) : \A j \in 1..Len(LE.macs[i].list) : LE.macs[i].list[j] \in IPS
          /\ C05_All
-T_C06 == C06_Exact
+T_C06 == "nd" \in DOMAIN LE \/ C06_Exact
 Failed == IF "C04" \in Check /\ ~T_C04 THEN "C04"
           ELSE IF "C05" \in Check /\ ~T_C05 THEN "C05"
           ELSE IF "C06" \in Check /\ ~T_C06 THEN "C06"
